@@ -117,7 +117,9 @@ def malformed_strings(rng, thorough):
     # dead ends, mixing, unknown names, unclosed things
     out += ["c", "c a", "a c", "c+", "c*", "c?", "(c | r)", "c{2}", "a c?", "(a | c) c", "r", "r+", "text", "text+", "text*",
             "a text", "a | i", "i a", "(a", "a)", "a{", "a{1", "a{1,", "a{,2}", "a{1,2", "a |", "| a", "a ||", "zz", "a zz*", "()", "a{2,1}",
-            "blk", "blk+", "g c", "ng", "ng*", "inl", "inl+ a", "(a b){2} c", "a{0}", "a{0,0}", "a{0,}", "(a*)*", "(a?)+", "(a* b*)*"]
+            "blk", "blk+", "g c", "ng", "ng*", "inl", "inl+ a", "(a b){2} c", "a{0}", "a{0,0}", "a{0,}", "(a*)*", "(a?)+", "(a* b*)*",
+            # range bounds of two digits (a 12-column grid)
+            "a{12}", "a{2,10}", "b{10,}", "(a b){10,11} c", "a{010}", "a{1 2}"]
     return out
 
 
